@@ -9,6 +9,8 @@ def model_hash():
     h = hashlib.sha256()
     files = sorted(glob.glob(os.path.join(vlib.COQ, "theories", "Base", "*.v")) +
                    glob.glob(os.path.join(vlib.COQ, "theories", "Spec", "*.v")) +
+                   glob.glob(os.path.join(vlib.COQ, "theories", "Impl", "*.v")) +
+                   glob.glob(os.path.join(vlib.COQ, "theories", "Gen", "Tables_cpp11.v")) +
                    [os.path.join(vlib.COQ, "extraction", f) for f in ("Extract.v", "driver.ml", "icu_stub.c")])
     for f in files:
         with open(f, "rb") as fh:
@@ -25,7 +27,7 @@ def ensure_model():
         shutil.rmtree(old, ignore_errors=True)
     os.makedirs(d, exist_ok=True)
     # the Spec .vo files must be current
-    rc, out, _ = vlib.coq_make(["theories/Spec/Proto.vo"], timeout=1200)
+    rc, out, _ = vlib.coq_make(["theories/Spec/Proto.vo", "theories/Impl/Api.vo"], timeout=1200)
     if rc != 0:
         raise RuntimeError("cannot build Spec/Proto.vo:\n" + out[-3000:])
     for f in ("Extract.v", "driver.ml", "icu_stub.c"):
